@@ -947,6 +947,7 @@ func checkC09(p *Prog, r *Report) {
 	ruleErrorDiscipline(p, r, "R09.3", sessionPkgs, "")
 	ruleAbortMachinery(p, r)
 	ruleHTTPStatus(p, r)
+	ruleValidatorsExamineAllLines(p, r)
 	ruleStatusAfterSession(p, r, "R13.2")
 	ruleTruthfulStatus(p, r, "R13.5")
 	ruleFiniteWaits(p, r)
@@ -1147,4 +1148,97 @@ func ruleHTTPStatus(p *Prog, r *Report) {
 		}
 		r.add("R09.7", "replies-parsed|(*panos.State).ApplyCommands", p.pos(ac.Pos()), "the command helper of ApplyCommands parses every reply with parseResponse", through, "replies to change commands are not examined")
 	}
+}
+
+// ruleValidatorsExamineAllLines: R09.8.
+func ruleValidatorsExamineAllLines(p *Prog, r *Report) {
+	r.rule("R09.8", "Output validators (the bool functions whose verdict decides over the abort in the console `cmd` helpers: asa/ios isValidOutput) accept only after every line was looked at: each `return true` lies behind the loop over the lines of the output (it is dominated by the loop header and is not inside the loop body), and the loop contains a `return false`. So an expected warning on one line cannot mask an error on another.")
+	n := 0
+	for _, fn := range allModFuncs(p) {
+		if fn.Parent() != nil || fn.Signature.Results().Len() != 1 || types.TypeString(fn.Signature.Results().At(0).Type(), nil) != "bool" {
+			continue
+		}
+		// is its verdict used to guard an abort on device output?
+		used := false
+		for _, e := range callersOf(p.CG(), fn) {
+			if e.Site == nil || e.Site.Value() == nil {
+				continue
+			}
+			caller := e.Caller.Func
+			for _, b := range caller.Blocks {
+				if i := ifOf(b); i != nil {
+					c, _ := stripNot(i.Cond)
+					if c == e.Site.Value() && guardsAbort(i) {
+						// and an argument derives from the connection's output
+						var src []ssa.Value
+						for _, cs := range callsOf(caller) {
+							if isConnRead(cs) && cs.In.Value() != nil {
+								src = append(src, cs.In.Value())
+							}
+						}
+						t := taintFrom(caller, src)
+						for _, a := range e.Site.Common().Args {
+							if t[a] {
+								used = true
+							}
+						}
+					}
+				}
+			}
+		}
+		if !used {
+			continue
+		}
+		n++
+		// the loop over the lines of the output: `for ... range strings.Split(<output param>, ...)`
+		var header *ssa.BasicBlock
+		for _, cs := range callsOf(fn) {
+			if cs.calleeName() != "strings.Split" && cs.calleeName() != "strings.Fields" && cs.calleeName() != "strings.SplitSeq" {
+				continue
+			}
+			fromParam := false
+			for _, rt := range valueRoots(cs.In.Common().Args[0]) {
+				if _, ok := rt.(*ssa.Parameter); ok {
+					fromParam = true
+				}
+			}
+			if !fromParam || cs.In.Value() == nil {
+				continue
+			}
+			split := cs.In.Value()
+			for _, hb := range fn.Blocks {
+				i := ifOf(hb)
+				if i == nil || naturalLoopBody(hb) == nil {
+					continue
+				}
+				bo, ok := i.Cond.(*ssa.BinOp)
+				if !ok || bo.Op != token.LSS {
+					continue
+				}
+				if lc, ok := bo.Y.(*ssa.Call); ok {
+					if bi, ok := lc.Common().Value.(*ssa.Builtin); ok && bi.Name() == "len" && lc.Common().Args[0] == split {
+						header = hb
+					}
+				}
+			}
+		}
+		if header == nil {
+			r.fail("R09.8", "validator-loop|"+shortName(fn), p.pos(fn.Pos()), "validator has no loop over the output lines with a rejecting return", "")
+			continue
+		}
+		body := naturalLoopBody(header)
+		ok := true
+		for _, ret := range returnsOf(fn) {
+			v, isC := constBool(ret.Results[0])
+			if !isC || !v {
+				continue
+			}
+			if !header.Dominates(ret.Block()) || (body[ret.Block()] && ret.Block() != header) {
+				ok = false
+			}
+		}
+		r.add("R09.8", "accept-after-all-lines|"+shortName(fn), p.pos(fn.Pos()), "every `return true` of "+shortName(fn)+" comes after the loop over all output lines", ok,
+			"the validator can accept the output before every line was examined: an error line next to an expected warning is missed")
+	}
+	r.floor("R09.8", "output validators", n, 2)
 }
